@@ -59,7 +59,33 @@ func specSimpleLp(p *spec.LpPacket) bool { return spec.SpecSimpleLp(p) }
 // is about the encoders; here only its length function is needed): Init computes the length of the encoding, Encode
 // returns a non-nil wire of exactly that many bytes (A-MEM: partial sums of segment sizes do not wrap).
 //
-// (*spec.PacketEncoder).Init / Encode: trusted contracts in std/ndn/spec_2022/zz_verif_make.go (frame length = spec.SpecLpFrameLen)
+// (*spec.PacketEncoder).Init / Encode: the full trusted contracts are in std/ndn/spec_2022/zz_verif_make.go. The send path
+// uses only their LpPacket clauses ([lp-frame-length], [wire-sum], [wire-sum-mono], encoder.length unchanged by Encode);
+// the two contracts below are this package's environment model: exactly those clauses, nothing about Interest/Data
+// encodings (which would only be ballast in the sendPacket VC).
+//
+//@ func (*github.com/named-data/ndnd/std/ndn/spec_2022.PacketEncoder).Init
+//@   trusted
+//@   option allocs-other
+//@   requires value != nil
+//@   modifies deep(encoder), value.Interest.NameV, value.Interest.NameV[*]
+//@   ensures value.Interest == nil && value.Data == nil && value.LpPacket != nil && specSimpleLp(value.LpPacket) ==> encoder.length == uint(specLpFrameLen(value.LpPacket))
+
+//@ func (*github.com/named-data/ndnd/std/ndn/spec_2022.PacketEncoder).Encode
+//@   trusted
+//@   option allocs-other
+//@   requires value != nil
+//@   modifies deep(encoder)
+//@   ensures result != nil && fresh(result) && encoder.length == old(encoder.length)
+//@   ensures specWireSum(result, len(result)) == int(encoder.length)
+//@   ensures forallIn(0, len(result), func(i int) bool { return 0 <= specWireSum(result, i) && specWireSum(result, i) <= specWireSum(result, i+1) && specWireSum(result, i+1) <= int(encoder.length) })
+
+// lemmaWireSumStep: the recursive step of the segment sum (one unfolding), used by the copy loop of sendPacket.
+//
+//@ func lemmaWireSumStep
+//@   requires 0 <= k && k < len(w)
+//@   ensures specWireSum(w, k+1) == specWireSum(w, k)+len(w[k])
+func lemmaWireSumStep(w enc.Wire, k int) {}
 
 // ---------------------------------------------------------------------------------------
 // transport: every frame handed to sendFrame fits the MTU
@@ -87,6 +113,13 @@ func specHeaderOverhead(o NDNLPLinkServiceOptions) int {
 //@ func (*NDNLPLinkService).computeHeaderOverhead
 //@   modifies l.headerOverhead
 //@   ensures l.headerOverhead == specHeaderOverhead(l.options)
+
+// SetOptions keeps the overhead in step with the options (sendPacket requires the equality).
+//
+//@ func (*NDNLPLinkService).SetOptions
+//@   modifies l.headerOverhead, all(NDNLPLinkServiceOptions)
+//@   ensures l.headerOverhead == specHeaderOverhead(l.options)
+//@   ensures l.options.IsFragmentationEnabled == options.IsFragmentationEnabled && l.options.IsIncomingFaceIndicationEnabled == options.IsIncomingFaceIndicationEnabled
 
 // ---------------------------------------------------------------------------------------
 // sendPacket
@@ -156,13 +189,48 @@ func specNoOther(p *spec.LpPacket) bool {
 // first/next/last before sendFrame): so the concatenation of the payloads in frame order is exactly the packet. Every
 // payload has 1..eff bytes, all but the last exactly eff.
 
-// Property C10 (sender). eff = specEffMtu(...). Per frame (assert before transport.sendFrame): fits the MTU
-// (precondition of sendFrame), carries the PIT token and the congestion mark, payload = the j-th slice of the packet
-// (so the concatenation of the payloads is the packet), and if there is more than one frame Sequence = s+j,
-// FragIndex = j, FragCount = n. Count: one frame if the packet fits, none if it does not and fragmentation is off,
-// otherwise n = ceil(len/eff).
+// Frame size, cut into two lemmas that are proved once in their own small VCs (sendPacket itself keeps the size
+// functions folded: `opaque`), so that the send loop only has to establish their hypotheses, which are plain facts about
+// the fields of the LpPacket:
+//   lemmaHdr: the header fields of a frame fit the budget the options, the PIT token and the congestion mark reserve;
+//   lemmaFit: header within budget and payload of at most eff bytes ==> the whole frame fits the MTU.
+//
+//@ func lemmaHdr
+//@   requires p != nil && specNoOther(p) && 1 <= n && n <= 8800
+//@   requires n == 1 ==> p.Sequence == nil && p.FragIndex == nil && p.FragCount == nil
+//@   requires n > 1 ==> o.IsFragmentationEnabled && p.FragIndex != nil && *p.FragIndex < uint64(n) && p.FragCount != nil && *p.FragCount == uint64(n)
+//@   requires p.PitToken != nil ==> 0 < tokLen && tokLen <= 32 && len(p.PitToken) == tokLen
+//@   requires p.IncomingFaceId != nil ==> o.IsIncomingFaceIndicationEnabled
+//@   requires p.CongestionMark != nil ==> marked
+//@   requires 0 <= tokLen && tokLen <= 32
+//@   ensures 0 <= specLpHeaderLen(p) && specLpHeaderLen(p) <= specHeaderOverhead(o)-8+specOpt(tokLen > 0, 1+1+tokLen)+specOpt(marked, 3+1+8)
+func lemmaHdr(p *spec.LpPacket, o NDNLPLinkServiceOptions, tokLen int, marked bool, n int) {}
+
+//@ func lemmaFit
+//@   opaque spec.SpecLpHeaderLen
+//@   requires p != nil && len(p.Fragment) == 1 && 1 <= len(p.Fragment[0]) && len(p.Fragment[0]) <= eff && 1 <= eff && eff <= 8800 && 0 <= mtu && mtu <= 8800
+//@   requires 0 <= specLpHeaderLen(p) && specLpHeaderLen(p) <= mtu-eff-8
+//@   ensures 1 <= specLpFrameLen(p) && specLpFrameLen(p) <= mtu
+func lemmaFit(p *spec.LpPacket, mtu int, eff int) {}
+
+// Property C10 (sender). eff = specEffMtu(...). Per frame (asserts before Init, i.e. on the LpPacket that is encoded):
+// carries the PIT token and the congestion mark, payload = the j-th slice of the packet (so the concatenation of the
+// payloads is the packet), and if there is more than one frame Sequence = s+j, FragIndex = j, FragCount = n; the frame
+// fits the MTU: [hdr], [fit] before Init; [enclen] before Encode: the encoder's length is the spec frame length of this
+// LpPacket and at most the MTU; the copy loop reproduces the encoder's length ([len], loop 4 with lemmaWireSumStep); hence
+// the precondition of sendFrame. ([len] is stated on encoder.length, not on the folded spec function: a folded function
+// has no frame rule across the allocation Encode performs.) Count: one frame if the packet fits, none if it does not and fragmentation is off, otherwise
+// n = ceil(len/eff).
+//
+// Proof structure: `option loop-cut-k` makes the head of loop k a proof cut (only the requires clauses and the loop's
+// invariants are known inside and after it), so the nonlinear facts of the fragmentation loop (loop 1) never reach the
+// send loop (loop 3); the frame-size functions stay folded.
 //
 //@ func sendPacket
+//@   option loop-cut-1
+//@   option loop-cut-2
+//@   option loop-cut-3
+//@   opaque spec.SpecLpHeaderLen spec.SpecLpFrameLen
 //@   requires l != nil && l.transport != nil && out.Pkt != nil && out.Pkt.L3 != nil
 //@   requires 128 <= l.transport.MTU() && l.transport.MTU() <= 8800
 //@   requires 1 <= len(out.Pkt.Raw) && len(out.Pkt.Raw) <= 8800
@@ -179,15 +247,17 @@ func specNoOther(p *spec.LpPacket) bool {
 //@   assert before ReadWire@1 uses lemmaMulMono(i, nFragments-1, effectiveMtu) [lo] i <= nFragments-1 ==> 0 <= i*effectiveMtu && i*effectiveMtu <= (nFragments-1)*effectiveMtu
 //@   assert before ReadWire@1 uses lemmaMulMono(i+1, nFragments-1, effectiveMtu) [hi] i < nFragments-1 ==> (i+1)*effectiveMtu <= (nFragments-1)*effectiveMtu
 //@   loop 1 invariant 0 <= i && i <= nFragments && len(fragments) == nFragments && fresh(fragments) && nFragments >= 2 && nFragments <= 8800
-//@   loop 1 invariant effectiveMtu == specEffMtu(l.transport.MTU(), l.options, out, congestionMarking) && 1 <= effectiveMtu && effectiveMtu <= 8800
+//@   loop 1 invariant effectiveMtu == specEffMtu(l.transport.MTU(), l.options, out, congestionMarking) && 1 <= effectiveMtu && effectiveMtu <= 8800 && l.options.IsFragmentationEnabled && len(wire) > effectiveMtu
 //@   loop 1 invariant nFragments == specCeilDiv(len(wire), effectiveMtu) && (nFragments-1)*effectiveMtu < len(wire) && len(wire) <= nFragments*effectiveMtu
+//@   loop 1 invariant l.nextSequence == old(l.nextSequence) && verifSent == old(verifSent) && sameSlice(wire, out.Pkt.Raw)
 //@   loop 1 invariant enc.wfBR(reader) && fresh(reader) && sameSlice(reader.buf, wire) && reader.pos == specMin(i*effectiveMtu, len(wire))
 //@   loop 1 invariant forallIn(0, i, func(j int) bool { return fragments[j] != nil && fresh(fragments[j]) && allocated(fragments[j]) && specBare(fragments[j]) })
 //@   loop 1 invariant forallIn(0, i, func(j int) bool { return len(fragments[j].Fragment) == 1 && sliceArr(fragments[j].Fragment[0]) == sliceArr(wire) && 1 <= len(fragments[j].Fragment[0]) && len(fragments[j].Fragment[0]) <= effectiveMtu && (j < nFragments-1 ==> len(fragments[j].Fragment[0]) == effectiveMtu) })
 //@   loop 1 invariant i > 0 ==> sliceOff(fragments[0].Fragment[0]) == sliceOff(wire) && sliceOff(fragments[i-1].Fragment[0])+len(fragments[i-1].Fragment[0]) == sliceOff(wire)+reader.pos
 //@   loop 1 invariant forallIn(1, i, func(j int) bool { return sliceOff(fragments[j].Fragment[0]) == sliceOff(fragments[j-1].Fragment[0])+len(fragments[j-1].Fragment[0]) })
 //@   loop 1 invariant forallIn(0, i, func(a int) bool { return forallIn(0, i, func(b int) bool { return a != b ==> fragments[a] != fragments[b] }) })
-//@   loop 2 invariant len(fragments) >= 2 && len(fragments) <= 8800 && fresh(fragments) && l.nextSequence == old(l.nextSequence)+uint64(rangeindex+1)
+//@   loop 2 invariant len(fragments) >= 2 && len(fragments) <= 8800 && fresh(fragments) && l.nextSequence == old(l.nextSequence)+uint64(rangeindex+1) && verifSent == old(verifSent) && sameSlice(wire, out.Pkt.Raw)
+//@   loop 2 invariant effectiveMtu == specEffMtu(l.transport.MTU(), l.options, out, congestionMarking) && 1 <= effectiveMtu && effectiveMtu <= 8800 && l.options.IsFragmentationEnabled && len(wire) > effectiveMtu && len(fragments) == specCeilDiv(len(wire), effectiveMtu)
 //@   loop 2 invariant forallIn(0, len(fragments), func(j int) bool { return fragments[j] != nil && fresh(fragments[j]) && specUnsent(fragments[j]) && specNoOther(fragments[j]) })
 //@   loop 2 invariant forallIn(0, len(fragments), func(j int) bool { return len(fragments[j].Fragment) == 1 && sliceArr(fragments[j].Fragment[0]) == sliceArr(wire) && 1 <= len(fragments[j].Fragment[0]) && len(fragments[j].Fragment[0]) <= effectiveMtu && (j < len(fragments)-1 ==> len(fragments[j].Fragment[0]) == effectiveMtu) })
 //@   loop 2 invariant sliceOff(fragments[0].Fragment[0]) == sliceOff(wire) && sliceOff(fragments[len(fragments)-1].Fragment[0])+len(fragments[len(fragments)-1].Fragment[0]) == sliceOff(wire)+len(wire)
@@ -196,7 +266,7 @@ func specNoOther(p *spec.LpPacket) bool {
 //@   loop 2 invariant forallIn(0, rangeindex+1, func(j int) bool { return fragments[j].Sequence != nil && allocated(fragments[j].Sequence) && *fragments[j].Sequence == old(l.nextSequence)+uint64(j) })
 //@   loop 2 invariant forallIn(0, rangeindex+1, func(j int) bool { return fragments[j].FragIndex != nil && allocated(fragments[j].FragIndex) && *fragments[j].FragIndex == uint64(j) })
 //@   loop 2 invariant forallIn(0, rangeindex+1, func(j int) bool { return fragments[j].FragCount != nil && allocated(fragments[j].FragCount) && *fragments[j].FragCount == uint64(len(fragments)) })
-//@   loop 3 invariant len(fragments) >= 1 && len(fragments) <= 8800 && fresh(fragments) && verifSent == old(verifSent)+rangeindex+1
+//@   loop 3 invariant len(fragments) >= 1 && len(fragments) <= 8800 && fresh(fragments) && verifSent == old(verifSent)+rangeindex+1 && sameSlice(wire, out.Pkt.Raw)
 //@   loop 3 invariant effectiveMtu == specEffMtu(l.transport.MTU(), l.options, out, congestionMarking) && 1 <= effectiveMtu && effectiveMtu <= 8800
 //@   loop 3 invariant len(fragments) == 1 ==> len(wire) <= effectiveMtu && l.nextSequence == old(l.nextSequence)
 //@   loop 3 invariant len(fragments) > 1 ==> l.options.IsFragmentationEnabled && len(fragments) == specCeilDiv(len(wire), effectiveMtu) && len(wire) > effectiveMtu && l.nextSequence == old(l.nextSequence)+uint64(len(fragments))
@@ -206,19 +276,23 @@ func specNoOther(p *spec.LpPacket) bool {
 //@   loop 3 invariant forallIn(0, len(fragments), func(j int) bool { return len(fragments[j].Fragment) == 1 && sliceArr(fragments[j].Fragment[0]) == sliceArr(wire) && 1 <= len(fragments[j].Fragment[0]) && len(fragments[j].Fragment[0]) <= effectiveMtu && (j < len(fragments)-1 ==> len(fragments[j].Fragment[0]) == effectiveMtu) })
 //@   loop 3 invariant sliceOff(fragments[0].Fragment[0]) == sliceOff(wire) && sliceOff(fragments[len(fragments)-1].Fragment[0])+len(fragments[len(fragments)-1].Fragment[0]) == sliceOff(wire)+len(wire)
 //@   loop 3 invariant forallIn(1, len(fragments), func(j int) bool { return sliceOff(fragments[j].Fragment[0]) == sliceOff(fragments[j-1].Fragment[0])+len(fragments[j-1].Fragment[0]) })
+//@   loop 3 invariant forallIn(0, len(fragments), func(a int) bool { return forallIn(0, len(fragments), func(b int) bool { return a != b ==> fragments[a] != fragments[b] }) })
 //@   loop 3 invariant forallIn(rangeindex+1, len(fragments), func(j int) bool { return specUnsent(fragments[j]) })
 //@   loop 3 invariant len(fragments) == 1 ==> fragments[0].Sequence == nil && fragments[0].FragIndex == nil && fragments[0].FragCount == nil
 //@   loop 3 invariant len(fragments) > 1 ==> forallIn(0, len(fragments), func(j int) bool { return fragments[j].Sequence != nil && allocated(fragments[j].Sequence) && *fragments[j].Sequence == old(l.nextSequence)+uint64(j) })
 //@   loop 3 invariant len(fragments) > 1 ==> forallIn(0, len(fragments), func(j int) bool { return fragments[j].FragIndex != nil && allocated(fragments[j].FragIndex) && *fragments[j].FragIndex == uint64(j) })
 //@   loop 3 invariant len(fragments) > 1 ==> forallIn(0, len(fragments), func(j int) bool { return fragments[j].FragCount != nil && allocated(fragments[j].FragCount) && *fragments[j].FragCount == uint64(len(fragments)) })
-//@   loop 4 invariant len(l.outFrame) == specWireSum(frameWire, rangeindex+1)
-//@   assert before transport.sendFrame@1 [token] len(out.PitToken) > 0 ==> sameSlice(fragment.PitToken, out.PitToken)
-//@   assert before transport.sendFrame@1 [mark] fragment.CongestionMark == congestionMark
-//@   assert before transport.sendFrame@1 [payload] len(fragment.Fragment) == 1 && sliceArr(fragment.Fragment[0]) == sliceArr(out.Pkt.Raw) && len(fragment.Fragment[0]) <= effectiveMtu
-//@   assert before transport.sendFrame@1 [first] rangeindex3+1 == 0 ==> sliceOff(fragment.Fragment[0]) == sliceOff(out.Pkt.Raw)
-//@   assert before transport.sendFrame@1 [next] rangeindex3+1 > 0 ==> sliceOff(fragment.Fragment[0]) == sliceOff(fragments[rangeindex3].Fragment[0])+len(fragments[rangeindex3].Fragment[0])
-//@   assert before transport.sendFrame@1 [last] rangeindex3+2 == len(fragments) ==> sliceOff(fragment.Fragment[0])+len(fragment.Fragment[0]) == sliceOff(out.Pkt.Raw)+len(out.Pkt.Raw)
-//@   assert before transport.sendFrame@1 [fragfields] len(fragments) > 1 ==> fragment.Sequence != nil && *fragment.Sequence == old(l.nextSequence)+uint64(rangeindex3+1) && fragment.FragIndex != nil && *fragment.FragIndex == uint64(rangeindex3+1) && fragment.FragCount != nil && *fragment.FragCount == uint64(len(fragments))
-//@   assert before transport.sendFrame@1 [hdr] specLpHeaderLen(fragment) <= l.transport.MTU()-effectiveMtu-8
-//@   assert before transport.sendFrame@1 [fit] specLpFrameLen(fragment) <= l.transport.MTU()
-//@   assert before transport.sendFrame@1 [len] len(l.outFrame) == specLpFrameLen(fragment)
+//@   loop 4 invariant len(l.outFrame) == specWireSum(frameWire, rangeindex+1) && 0 <= len(l.outFrame) && len(l.outFrame) <= 8800
+//@   assert before Init@1 [token] len(out.PitToken) > 0 ==> sameSlice(fragment.PitToken, out.PitToken)
+//@   assert before Init@1 [mark] fragment.CongestionMark == congestionMark
+//@   assert before Init@1 [payload] len(fragment.Fragment) == 1 && sliceArr(fragment.Fragment[0]) == sliceArr(out.Pkt.Raw) && 1 <= len(fragment.Fragment[0]) && len(fragment.Fragment[0]) <= effectiveMtu
+//@   assert before Init@1 [first] rangeindex3+1 == 0 ==> sliceOff(fragment.Fragment[0]) == sliceOff(out.Pkt.Raw)
+//@   assert before Init@1 [next] rangeindex3+1 > 0 ==> sliceOff(fragment.Fragment[0]) == sliceOff(fragments[rangeindex3].Fragment[0])+len(fragments[rangeindex3].Fragment[0])
+//@   assert before Init@1 [last] rangeindex3+2 == len(fragments) ==> sliceOff(fragment.Fragment[0])+len(fragment.Fragment[0]) == sliceOff(out.Pkt.Raw)+len(out.Pkt.Raw)
+//@   assert before Init@1 [fragfields] len(fragments) > 1 ==> fragment.Sequence != nil && *fragment.Sequence == old(l.nextSequence)+uint64(rangeindex3+1) && fragment.FragIndex != nil && *fragment.FragIndex == uint64(rangeindex3+1) && fragment.FragCount != nil && *fragment.FragCount == uint64(len(fragments))
+//@   assert before Init@1 [hyp] specNoOther(fragment) && (len(fragments) == 1 ==> fragment.Sequence == nil && fragment.FragIndex == nil && fragment.FragCount == nil) && (fragment.PitToken != nil ==> 0 < len(out.PitToken) && len(fragment.PitToken) == len(out.PitToken)) && (fragment.IncomingFaceId != nil ==> l.options.IsIncomingFaceIndicationEnabled) && (fragment.CongestionMark != nil ==> out.Pkt.CongestionMark != nil || congestionMarking)
+//@   assert before Init@1 uses lemmaHdr(fragment, l.options, len(out.PitToken), out.Pkt.CongestionMark != nil || congestionMarking, len(fragments)) [hdr] 0 <= specLpHeaderLen(fragment) && specLpHeaderLen(fragment) <= l.transport.MTU()-effectiveMtu-8
+//@   assert before Init@1 uses lemmaFit(fragment, l.transport.MTU(), effectiveMtu) [fit] 1 <= specLpFrameLen(fragment) && specLpFrameLen(fragment) <= l.transport.MTU()
+//@   assert before Encode@1 [enclen] encoder.length == uint(specLpFrameLen(fragment)) && 1 <= int(encoder.length) && int(encoder.length) <= l.transport.MTU()
+//@   assert before append@1 uses lemmaWireSumStep(frameWire, rangeindex4+1) [sumstep] specWireSum(frameWire, rangeindex4+2) == specWireSum(frameWire, rangeindex4+1)+len(frameWire[rangeindex4+1])
+//@   assert before transport.sendFrame@1 [len] len(l.outFrame) == int(encoder.length) && int(encoder.length) <= l.transport.MTU()
